@@ -63,6 +63,7 @@ func (w *verifC14World) step(kind int) {
 
 func (w *verifC14World) witnesses() {
 	w.reach(3, "history-ephemeral-key-removed-by-last-unregister", w.sawEphemeralRemoved)
+	w.reach(3, "history-empty-ephemeral-key-removed-by-unregister-of-a-non-producer", w.sawEphemeralDropped)
 	w.reach(2, "history-disconnect-ran-exit-path", w.sawDisconnect)
 	w.reach(2, "history-fatal-error-ended-connection", w.sawFatal)
 	both := true
